@@ -60,13 +60,16 @@ func c06Scenario(c *choice.Ctx, rep *report.R, prop string, nCalls, depth int) {
 			cancelOnSetup = false
 			// the caller that is waiting for this connection gives up while the transport is still setting it up
 			impl.OnAddr = func() {
-				for i := len(calls) - 1; i >= 0; i-- {
-					if calls[i].started && !calls[i].done && !calls[i].canceled {
-						calls[i].canceled = true
-						calls[i].cancel()
-						return
+				// runs on the transport's dial goroutine: harness state is touched under hmu
+				publish(func() {
+					for i := len(calls) - 1; i >= 0; i-- {
+						if calls[i].started && !calls[i].done && !calls[i].canceled {
+							calls[i].canceled = true
+							calls[i].cancel()
+							return
+						}
 					}
-				}
+				})
 			}
 		}
 	}
@@ -111,6 +114,9 @@ func c06Scenario(c *choice.Ctx, rep *report.R, prop string, nCalls, depth int) {
 			if cl.panicked != nil {
 				fail("panic", fmt.Sprintf("exchange %d: %v", cl.idx, cl.panicked))
 				continue
+			}
+			if cl.both != nil {
+				fail("reply-with-error", fmt.Sprintf("exchange %d returned a message together with an error: %v", cl.idx, cl.both))
 			}
 			if cl.nilnil {
 				fail("nil-nil", fmt.Sprintf("exchange %d returned (nil, nil)", cl.idx))
